@@ -545,6 +545,99 @@ func (w *c17World) completedNow(o *chainkit.Outcome, d *decision) bool {
 	return len(chainkit.EventsNamed(o.Events, eventOf(d.kind))) > 0
 }
 
+// TestC17Interplay: a decision completes while other ballots are open; nothing of theirs may be touched,
+// and the completed decision must not stay half open.
+func TestC17Interplay(t *testing.T) {
+	theT = t
+	col := ev.New("C17", "interplay",
+		"complete enumeration for n=2..5 stored keys x completing kind {setConfig, cheque, alphabetUpdate (replacement), innerRingCandidateRemove} x bystander kind {setConfig, cheque, innerRingCandidateRemove of the other candidate} x bystander opened {before, after} the first vote of the completing decision: the bystander gets one vote, the completing decision is voted to its threshold by distinct keys, then one more vote for the completed id is sent (and, for removals, the candidate registers again first: one vote must not remove it), then the bystander is voted to its threshold by the remaining keys; every invocation is judged by the ballot model, the read API is compared after every block; non-trivial = every case")
+	defer func() { col.Flush(true) }()
+	nshards, shard := envInt("VERIF_NSHARDS", 1), envInt("VERIF_SHARD_INDEX", 0)
+	idx := 0
+	for n := 2; n <= 5; n++ {
+		for _, kind := range []string{"setConfig", "cheque", "alphabetUpdate", "candidateRemove"} {
+			for _, by := range []string{"setConfig", "cheque", "candidateRemove"} {
+				for _, before := range []bool{true, false} {
+					idx++
+					if idx%nshards != shard {
+						continue
+					}
+					h := ev.NewHistory()
+					h.Op("n=%d completing=%s bystander=%s bystander opened before=%v", n, kind, by, before)
+					if !runCase(t, col, h, func() {
+						w := newC17World(n, h)
+						defer w.close()
+						thr := w.m.threshold()
+						register := func(ci int) {
+							key := w.cands[ci].Account().PublicKey().Bytes()
+							if w.m.candidates[string(key)] {
+								return
+							}
+							if o := w.c.Invoke([]neotest.Signer{w.cands[ci]}, w.neofs, "innerRingCandidateAdd", key); !o.Halt {
+								panic(chainkit.HarnessError{Msg: "c17: candidateAdd: " + o.Fault})
+							}
+							w.m.candidates[string(key)] = true
+							h.Op("candidate%d registers", ci)
+						}
+						mk := func(k string, ci int) *decision {
+							if k == "candidateRemove" {
+								register(ci)
+								return w.candidateDecision(ci)
+							}
+							return w.newDecision(k)
+						}
+						d, b := mk(kind, 0), mk(by, 1)
+						members := append([][]byte{}, w.m.alphabet...)
+						vote := func(dd *decision, mi int) {
+							v := w.prepare(dd, []neotest.SingleSigner{w.signerOf(members[mi])}, fmt.Sprintf("member %d", mi))
+							outs := w.c.InvokeBlock(0, v.tx)
+							w.apply(v, outs[0])
+							w.observe("interplay")
+						}
+						if before {
+							vote(b, n-1)
+						}
+						vote(d, 0)
+						if !before {
+							vote(b, n-1)
+						}
+						for i := 1; i < thr; i++ {
+							vote(d, i)
+						}
+						if !h.Has("completed:" + kind) {
+							fail("C17: %s did not complete with %d distinct votes of %d keys", d.desc, thr, n)
+						}
+						if kind == "alphabetUpdate" {
+							// the voters of the bystander must be keys of the new list
+							members = append([][]byte{}, w.m.alphabet...)
+						}
+						if kind == "candidateRemove" {
+							register(0)
+						}
+						// one more vote for the finished id: a fresh ballot with a single vote
+						if kind != "alphabetUpdate" {
+							vote(d, 0)
+						}
+						// the bystander collects the rest of its votes
+						if kind != "alphabetUpdate" {
+							for i := n - 2; i >= 0 && w.m.ballots[string(b.id)] != nil; i-- {
+								vote(b, i)
+							}
+							if w.m.ballots[string(b.id)] != nil {
+								fail("C17: harness: the bystander did not complete in the model")
+							}
+						}
+						h.NonTrivial()
+					}) {
+						return
+					}
+				}
+			}
+		}
+	}
+	col.SetExhaustive(true)
+}
+
 // TestC17AlphabetResize: the threshold of an alphabetUpdate is that of the stored list, whatever the size of the proposed one.
 func TestC17AlphabetResize(t *testing.T) {
 	theT = t
